@@ -232,7 +232,7 @@ theorem win_step {P : Prog} {v v' : SV} {evs : List Tr} (hP : ScreenOnly P) (hC 
       cases hbt with
       | passive hp => cases hp
       | callScr _ _ _ _ n =>
-        refine .inr (.w3 (scr := scr) (r := (P.screenScript scr .closed n).ret) (k := none) ?_ hq)
+        refine .inr (.w3 (scr := scr) (r := (P.screenScript scr .closed n).ret) (k := none) (e := e) (frm := frm) ?_ hq)
         show ((if Cb.closed = Cb.show then _ else _) ++ List.map Instr.act (P.screenScript scr .closed n).acts ++ _) ++ _ = _
         rw [hC scr n]; rfl
     | halt hc' hh => rw [hc] at hc'; cases hc'; cases hh
